@@ -1,6 +1,7 @@
 import GeoVerif.Proofs.TM
 import GeoVerif.Proofs.TMCertGF
 import GeoVerif.Proofs.TMCertFG
+import GeoVerif.Series.AuxDecode
 /-!
 # C06 — transverse Mercator (series and exact)
 
@@ -126,5 +127,35 @@ theorem alp_bet_revert : checkRevertGF = true := Proofs.TMCert.revertGF
 
 /-- … and `F(G(ζ)) = ζ` modulo `n^{N+1}` -/
 theorem bet_alp_revert : checkRevertFG = true := Proofs.TMCert.revertFG
+
+
+/-! ### the TM tables are the auxiliary-latitude tables (both re-extracted from the source on every run) -/
+
+/-- block `l` (1-based) of `alpcoeff`/`betcoeff` as the truncated power series in `n` the constructor evaluates:
+`n^l · polyval(num, n) / den` -/
+def tmBlock (tbl : List Rat) (l : Nat) : Poly :=
+  let b := TM.block tbl l
+  Poly.trunc (TM.N + 1) (Poly.shift l (Poly.smul (1 / b.2) (Poly.ofHighFirst b.1)))
+
+def checkAlpAux : Bool :=
+  TM.N == AuxDecode.L &&
+  (List.range TM.N).all fun i =>
+    Poly.eqN (TM.N + 1) (tmBlock Gen.TMSeries.alpcoeff (i + 1))
+      ((AuxDecode.block Gen.AuxSeries.RECTIFYING Gen.AuxSeries.CONFORMAL).getD i [])
+
+def checkBetAux : Bool :=
+  TM.N == AuxDecode.L &&
+  (List.range TM.N).all fun i =>
+    Poly.eqN (TM.N + 1) (Poly.smul (-1) (tmBlock Gen.TMSeries.betcoeff (i + 1)))
+      ((AuxDecode.block Gen.AuxSeries.CONFORMAL Gen.AuxSeries.RECTIFYING).getD i [])
+
+/-- **Cross-table certificate**: the Krüger table `alpcoeff` of TransverseMercator.cpp equals, as rational series in `n`, the
+`μ ← χ` (rectifying from conformal) table of AuxLatitude.cpp — a table transcribed independently and certified by the C15
+obligations (`chi_ode`, `mu_beta_table`, `aux_revert`, `aux_compose_partial`).  Together with `alp_bet_revert` this pins the
+TM series to the defining relations of the conformal and rectifying latitudes, not only to each other. -/
+theorem alp_is_aux : checkAlpAux = true := by decide +kernel
+
+/-- likewise `−betcoeff` = the `χ ← μ` table -/
+theorem bet_is_aux : checkBetAux = true := by decide +kernel
 
 end GeoVerif.Props.C06
